@@ -263,6 +263,9 @@ class BaseParser(xml.sax.ContentHandler):
 
     def characters_default(self, data):
         key = self._attrs.get("key")
+        if self._position is None:
+            # an empty <default/> never saw character data
+            self._position = self.get_position()
         self._stack[-1].adddefault(data, self._position, key)
 
     def characters_description(self, data):
